@@ -10,7 +10,8 @@ import vlib
 
 # C22 files are compiled directly, in this order, until they are listed in coq/_CoqProject
 ORDER = ["C22/MPolyModel.v", "C22/MPolySpec.v", "C22/MPolyDict.v", "C22/MPolyRec.v", "C22/MPolyArith.v",
-         "C22/MPolyOps.v", "C22/MPolyPow.v", "C22/MPolyEval.v", "C22/MPolyEq.v", "C22/MPolyInst.v", "C22/MPolyMain.v"]
+         "C22/MPolyOps.v", "C22/MPolyPow.v", "C22/MPolyEval.v", "C22/MPolyEval2.v", "C22/MPolyEq.v", "C22/MPolyInst.v",
+         "C22/MPolyMain.v", "C22/MPolyFromDict.v", "C22/MPolyFromDict2.v", "C22/MPolyWfDef.v", "C22/MPolyWf.v"]
 PROOF_MODULES = [f[:-2] + ".vo" for f in ORDER[1:]]
 OBLIGATIONS = sorted("C22/" + f for f in os.listdir(os.path.join(vlib.COQ, "C22"))
                      if f.startswith("P_") and f.endswith(".v")) if os.path.isdir(os.path.join(vlib.COQ, "C22")) else []
